@@ -15,6 +15,13 @@ CHECKS = {
         "Trusted: vf/ref/codec.py (cross-checked against int() on 4e5 random spellings); digit strings below Python's 4300-digit limit.",
         "DESIGN.md §2 C02",
     ),
+    "C03": (
+        "exploration",
+        "exhaustive enumeration of the finite header product + boundary-value payload corpora + Hypothesis payload generation, differential against a hand-written tri-state reference validator; exhaustive table laws",
+        "The finite factor (version x command x sub-type x node/child/ack classes x conforming/violating exemplar, ~2.1e5 frames) is enumerated completely in both tiers; payload text per rule is a boundary corpus plus generated text (12k quick / 480k thorough). Both directions are compared (accepts-invalid and rejects-valid).",
+        "Trusted: hand-written tables/validator in vf/ref (written from the serial API, not from const_*.py). Inputs whose verdict the statement does not pin are executed but not compared.",
+        "DESIGN.md §2 C03",
+    ),
 }
 
 NOT_YET = {}
